@@ -181,6 +181,30 @@ ScanWhy(r) ==
           \cup (IF r.p2 = Flat(k) THEN {} ELSE {"positions-after-rewind"})
           \cup (IF r.c2 = SubSeq(r.text, k + 1, n) \o <<-1>> THEN {} ELSE {"characters-after-rewind"})
 
+(* very long lines / very many lines (harness longline_record): the text is pre \o fill^n and is never
+   materialised; the documented position of an offset o behind the prefix follows from the position of
+   the end of the prefix: a newline fill starts a new line with every character (column 1), any other fill
+   advances the column ("line = 1 + number of newlines before the offset, column counted from the last
+   newline").  at = the observed offsets (ascending), pos = their <<off, line, col>> flattened, chr = the
+   character read there (-1 behind the end), k-th observed position restored after the end was reached. *)
+LongPos(r, o) ==
+  LET lp == Len(r.pre) IN
+  IF o <= lp THEN <<o, Line(r.pre, o), Col(r.pre, o)>>
+  ELSE IF r.fill = NL THEN <<o, Line(r.pre, lp) + (o - lp), 1>>
+  ELSE <<o, Line(r.pre, lp), Col(r.pre, lp) + (o - lp)>>
+LongChr(r, o) ==
+  LET lp == Len(r.pre) IN IF o < lp THEN r.pre[o + 1] ELSE IF o < lp + r.n THEN r.fill ELSE -1
+LongWhy(r) ==
+  LET m == Len(r.at)
+      k == IF r.k < m THEN r.k + 1 ELSE m
+      Flat == [i \in 1..(3 * m) |-> LongPos(r, r.at[((i - 1) \div 3) + 1])[((i - 1) % 3) + 1]]
+  IN IF m = 0 \/ \E i \in 1..m : r.at[i] > Len(r.pre) + r.n THEN {"HARNESS-PRECONDITION"}
+     ELSE IF r.exc # 0 THEN {"exception"}
+     ELSE (IF r.pos = Flat THEN {} ELSE {"positions"})
+          \cup (IF r.chr = [i \in 1..m |-> LongChr(r, r.at[i])] THEN {} ELSE {"characters"})
+          \cup (IF r.pos2 = LongPos(r, r.at[k]) THEN {} ELSE {"positions-after-rewind"})
+          \cup (IF r.chr2 = LongChr(r, r.at[k]) THEN {} ELSE {"characters-after-rewind"})
+
 One(op, why) == IF why = {} THEN <<>> ELSE <<[k |-> 0, op |-> op, why |-> why, scope |-> TRUE]>>
 Judge(r) ==
   IF r.f = "hist"
@@ -188,6 +212,7 @@ Judge(r) ==
                               unk |-> FALSE], <<>>, r.ev, 1, <<>>)
   \* scan and entry records (std::basic_istringstream): positions / rewinding / error location clauses
   ELSE IF r.f = "scan" THEN One("scan", ScanWhy(r))
+  ELSE IF r.f = "longline" THEN One("scan", LongWhy(r))
   ELSE IF r.f = "entry" THEN One(IF r.kind = 5 THEN "entry_literal" ELSE "entry_char_set", EntryWhy(r))
   ELSE One("unknown", {"HARNESS-PRECONDITION"})
 
